@@ -136,9 +136,14 @@ class HTTPFile(io.IOBase):
             self.cache[index] = self.download_range(start, stop)
         if len(self.cache) > self._keep_chunks:
             for kk in self.cache.keys():
-                if kk != 0:  # always keep the first chunk
+                # always keep the first chunk and the requested chunk
+                if kk != 0 and kk != index:
                     self.cache.pop(kk)
                     break
+            else:
+                # Only the first and the requested chunk are left
+                # (`keep_chunks` is 1), so the first chunk has to go.
+                self.cache.pop(0)
         return self.cache[index]
 
     def read(self, size=-1, /):
